@@ -146,8 +146,16 @@ def _alarm(_sig, frm):
     raise _Timeout(user)
 
 
-def evaluate(src: str, experimental: bool = True) -> dict:
-    """outcome of one program (module text)"""
+def evaluate(src: str, experimental: bool = True, limit: int | None = None) -> dict:
+    """outcome of one program (module text); a `hang` is confirmed by a second run with a six times longer limit (the
+    machine may be heavily loaded)"""
+    o = _evaluate(src, experimental, limit or TIME_LIMIT)
+    if o["class"] == "hang" and limit is None:
+        o = _evaluate(src, experimental, 6 * TIME_LIMIT)
+    return o
+
+
+def _evaluate(src: str, experimental: bool, limit: int) -> dict:
     from guppylang_internals.diagnostic import DiagnosticsRenderer
     from guppylang_internals.engine import DEF_STORE
     from guppylang_internals.error import GuppyComptimeError, GuppyError
@@ -166,7 +174,7 @@ def evaluate(src: str, experimental: bool = True) -> dict:
     old_exp = X.EXPERIMENTAL_FEATURES_ENABLED
     X.EXPERIMENTAL_FEATURES_ENABLED = experimental
     old_alarm = signal.signal(signal.SIGALRM, _alarm)
-    signal.alarm(TIME_LIMIT)
+    signal.alarm(limit)
     try:
         try:
             code = compile(src, fn, "exec")
